@@ -50,6 +50,7 @@ func emitSeg(e *Emitter, a, b, c, d geom.Coord) {
 	var res, nr lineintersection.Result
 	// private copies of the arguments (the result may legitimately share storage with them, and
 	// purity is C17); the returned result is kept and rendered again after later calls
+	e.pending("C12.seg", in)
 	e.emitR("C12.seg", in, func() string {
 		if !done {
 			cp := func(x geom.Coord) geom.Coord { return append(geom.Coord{}, x...) }
